@@ -245,11 +245,11 @@ theorem aligned_ok (a0 : Arch) (hs : 0 < a0.step) (q : Nat) (hq : TimeOK a0 q) :
   have := hq.2
   omega
 
-theorem archiveUpdateMany_zero (o : FOps) (h h' : Handle) (g : Good h) (a0 : Arch) (ha0 : h.archs[0]? = some a0)
+theorem archiveUpdateMany_at (o : FOps) (h h' : Handle) (g : Good h) (k : Nat) (a0 : Arch) (ha0 : h.archs[k]? = some a0)
     (st : ArchState h a0) (ps : List Point) (hps : ∀ p ∈ ps, TimeOK a0 p.t)
-    (hp : archiveUpdateMany o h ps 0 = .ok h') :
+    (hp : archiveUpdateMany o h ps k = .ok h') :
     ReachS a0 h ((alignPoints a0 ps).map fun p => some (p.t, p.v)) h' ∧ Good h' ∧ h'.hdr = h.hdr := by
-  have fr0 := archiveUpdateMany_frame o h h' g.placed ps 0 hp
+  have fr0 := archiveUpdateMany_frame o h h' g.placed ps k hp
   refine ⟨?_, g.of_frame fr0, fr0.1⟩
   have hs0 : 0 < a0.step := by rcases st with fr | ⟨lv, _⟩; exact fr.hs; exact lv.hs
   have hal : ∀ d ∈ alignPoints a0 ps, d.t < 2147483648 ∧ a0.step ∣ (d.t : Int) ∧ d.t ≠ 0 := by
@@ -264,18 +264,18 @@ theorem archiveUpdateMany_zero (o : FOps) (h h' : Handle) (g : Good h) (a0 : Arc
   unfold archiveUpdateMany at hp
   rw [ha0] at hp
   simp only [hbI] at hp
-  have pf := placedFrom_of_valid h g.1.valid g.1.range 0 a0 ha0
+  have pf := placedFrom_of_valid h g.1.valid g.1.range k a0 ha0
   -- the tail: propagation below archive 0 leaves it alone
   have tail : ∀ (hm : Handle) (base : Nat), putPoints h a0 base (alignPoints a0 ps) = .ok hm →
-      propagateChain o hm 0 (alignPoints a0 ps) = .ok h' → SameOn a0 hm h' := by
+      propagateChain o hm k (alignPoints a0 ps) = .ok h' → SameOn a0 hm h' := by
     intro hm base hput hpc
     have f1 := putPoints_frame a0 (g.placed a0 (mem_of_getElem? ha0)) base _ h hm hput
-    have pfm : PlacedFrom hm (0 + 1) (a0.offset + 12 * a0.n) h.hdr.total := by
+    have pfm : PlacedFrom hm (k + 1) (a0.offset + 12 * a0.n) h.hdr.total := by
       intro i b hi hb
       apply pf i b hi
       unfold Handle.archs at hb ⊢
       rw [f1.1] at hb; exact hb
-    exact frame_sameOn a0 (propagateChain_frameFrom o hm h' 0 pfm _ hpc) (by omega)
+    exact frame_sameOn a0 (propagateChain_frameFrom o hm h' k pfm _ hpc) (by omega)
   rcases st with fr | ⟨lv, al⟩
   · -- never written: the first aligned point becomes the base
     have hb0 : (slotAt h a0 0).t = 0 := fr.zero 0 fr.hn
@@ -312,6 +312,12 @@ theorem archiveUpdateMany_zero (o : FOps) (h h' : Handle) (g : Good h) (a0 : Arc
       have := ReachS.append a0 _ [] h hm h' r.toS (ReachS.of_sameOn s)
       rw [List.append_nil] at this
       exact this
+
+theorem archiveUpdateMany_zero (o : FOps) (h h' : Handle) (g : Good h) (a0 : Arch) (ha0 : h.archs[0]? = some a0)
+    (st : ArchState h a0) (ps : List Point) (hps : ∀ p ∈ ps, TimeOK a0 p.t)
+    (hp : archiveUpdateMany o h ps 0 = .ok h') :
+    ReachS a0 h ((alignPoints a0 ps).map fun p => some (p.t, p.v)) h' ∧ Good h' ∧ h'.hdr = h.hdr :=
+  archiveUpdateMany_at o h h' g 0 a0 ha0 st ps hps hp
 
 theorem archiveUpdateMany_other (o : FOps) (h h' : Handle) (g : Good h) (a0 : Arch) (ha0 : h.archs[0]? = some a0)
     (ps : List Point) (k : Nat) (hk : 1 ≤ k) (hp : archiveUpdateMany o h ps k = .ok h') :
